@@ -112,6 +112,9 @@ PRet(i, res, nr, nw) ==
         \cup (IF i \notin Ids \/ st[i] # "pending" THEN {"Harness"} ELSE {})
         \* B4: the cancel event is logged before the context is cancelled
         \cup (IF res = "canceled" /\ i \notin canc THEN {"SpuriousCancel"} ELSE {})
+        \* "a waiter whose context is cancelled returns context.Canceled": no other error (e.g. the
+        \* cancellation cause of a context.WithCancelCause) is a result of Lock
+        \cup (IF res \notin {"ok", "false", "canceled"} THEN {"BadError"} ELSE {})
         \* Writer preference: a read acquire that started while a writer was waiting is not granted
         \* before that writer acquired or gave up.
         \*   coarse: a pending writer has done neither (its decisive section and its return are one
@@ -222,7 +225,7 @@ ExclAfterCancel == Excl \/ ~\E i \in Ids : st[i] = "canceled"
 Safe_C01 == Excl /\ bad \cap {"Occ", "Phantom", "Panic"} = {}
 
 \* C02: grantable waiters are granted, cancelled waiters leave no trace, writer preference.
-Safe_C02 == ExclAfterCancel /\ bad \cap {"Stuck", "CancelStuck", "WriterPref", "SpuriousCancel", "Residue"} = {}
+Safe_C02 == ExclAfterCancel /\ bad \cap {"Stuck", "CancelStuck", "WriterPref", "SpuriousCancel", "Residue", "BadError"} = {}
 
 NoHarnessError == "Harness" \notin bad
 
